@@ -184,30 +184,9 @@ theorem closeObj_bal (w : World) (o : Obj) (hn : (ids w.objs).Nodup) (hg : getOb
       (by simp [bitsOf]; split <;> omega)
     simpa [Int.sub_eq_add_neg] using this
   · simp only [ht]
-    -- delRead, then delWrite on the updated object, then mark closed
-    have b1 := delRead_bal w o hn hg
-    have g1 : ∃ o1, getObj (delRead w o) o.id = some o1 ∧ o1.id = o.id ∧ o1.evR = false ∧ o1.evW = o.evW := by
-      unfold delRead
-      by_cases h : o.evR
-      · simp only [h, if_true]
-        exact ⟨_, getObj_setObj_self _ o _ (show getObj { w with pending := w.pending - 1 } o.id = some o from hg) rfl, rfl, rfl, rfl⟩
-      · simp only [h]; exact ⟨o, hg, rfl, by simpa using h, rfl⟩
-    obtain ⟨o1, hg1, hid1, hr1, _⟩ := g1
-    have hg1' : getObj (delRead w o) o1.id = some o1 := by rw [hid1]; exact hg1
-    have b2 := delWrite_bal (delRead w o) o1 b1.1 hg1'
-    have g2 : ∃ o2, getObj (delWrite (delRead w o) o1) o.id = some o2 ∧ o2.id = o.id ∧ o2.evR = false ∧ o2.evW = false := by
-      unfold delWrite
-      by_cases h : o1.evW
-      · simp only [h, if_true]
-        refine ⟨{ o1 with evW := false, registered := o1.evR }, ?_, hid1, hr1, rfl⟩
-        rw [← hid1]
-        exact getObj_setObj_self _ o1 _ (show getObj { (delRead w o) with pending := (delRead w o).pending - 1 } o1.id = some o1 from hg1') rfl
-      · simp only [h]; exact ⟨o1, hg1, hid1, hr1, by simpa using h⟩
-    obtain ⟨o2, hg2, hid2, r2, w2⟩ := g2
-    simp only [hg1, hg2, Option.getD_some]
-    have hg2' : getObj (delWrite (delRead w o) o1) o2.id = some o2 := by rw [hid2]; exact hg2
-    have b3 := setObj_same_bits _ o2 { o2 with closed := true, registered := false } b2.1 hg2' rfl (by simp [bitsOf])
-    exact (b1.trans b2).trans b3
+    have := setObj_bal w o { o with evR := false, evW := false, closed := true, registered := false } hn hg rfl
+      (-((if o.evR then 1 else 0) + (if o.evW then 1 else 0))) (by simp [bitsOf]; split <;> split <;> omega)
+    simpa [Int.sub_eq_add_neg] using this
 
 theorem postFrames_cons_other (k : K) (r : List K) (h : ∀ op, k ≠ .user op .postDone) : postFrames (k :: r) = postFrames r := by
   cases k with
